@@ -356,3 +356,95 @@ Fixpoint run_cmds (env : denv) (cs : list cmd) (ns : list node) : list node :=
       run_cmds env t ns'
   end.
 Definition run_prog (env : denv) (p : list cmd) : list node := run_cmds env p [].
+
+(* ------------------------------------------------------------------ flatten (apply_flatten_to_self) *)
+(* Operations are named globally by their path (insertion indices from the top).  The decomposed listing carries, for every
+   leaf, the link it holds after the hand-off: its own link, or the link inherited from the enclosing sub-circuit(s). *)
+Definition path := list nat.
+Inductive glink := GNone | GRel (t : RelationType) (target : path) | GMulti (targets : list path) | GDangling (t : RelationType).
+
+Definition globalize (P : path) (l : link) : glink :=
+  match l with
+  | LNone => GNone
+  | LDangling t => GDangling t
+  | LRel t p => GRel t (P ++ [p])
+  | LMulti ps => GMulti (map (fun p => P ++ [p]) ps)
+  end.
+
+Fixpoint glisting_op (o : op) : path -> glink -> list (path * leaf * glink) :=
+  match o with
+  | OLeaf l => fun P inh => [(P, l, inh)]
+  | OComp _ ns => fun P inh =>
+      let fs := (fix go (l : list node) : list (path -> glink -> list (path * leaf * glink)) :=
+                   match l with [] => [] | Node _ _ o' :: t => glisting_op o' :: go t end) ns in
+      flat_map (fun i => let l := nth i (map n_link ns) LNone in
+                         let eff := if has_relation l then globalize P l else inh in
+                         nth i fs (fun _ _ => []) (P ++ [i]) eff)
+               (bfs (parents ns))
+  end.
+Definition glisting (ns : list node) : list (path * leaf * glink) := glisting_op (OComp 1 ns) [] GNone.
+
+Fixpoint path_eqb (a b : path) : bool :=
+  match a, b with [], [] => true | x :: s, y :: t => Nat.eqb x y && path_eqb s t | _, _ => false end.
+Fixpoint plookup (m : list (path * nat)) (p : path) : option nat :=
+  match m with [] => None | (a, b) :: t => if path_eqb a p then Some b else plookup t p end.
+Fixpoint all_some {A} (l : list (option A)) : option (list A) :=
+  match l with
+  | [] => Some []
+  | None :: _ => None
+  | Some x :: t => match all_some t with Some r => Some (x :: r) | None => None end
+  end.
+
+(* absolute (start, end) of every node (leaves and sub-circuits) of the nested structure, by path *)
+Fixpoint gtimes_op (env : denv) (o : op) : path -> ctx -> list (path * (Z * Z)) :=
+  match o with
+  | OLeaf _ => fun _ _ => []
+  | OComp _ ns => fun P c =>
+      let fs := (fix go (l : list node) : list (path -> ctx -> list (path * (Z * Z))) :=
+                   match l with [] => [] | Node _ _ o' :: t => gtimes_op env o' :: go t end) ns in
+      let tm := node_times env c ns in
+      flat_map (fun i => (P ++ [i], nth i tm (0, 0))
+                         :: nth i fs (fun _ _ => []) (P ++ [i]) (sub_ctx c tm (nth i (map n_link ns) LNone)))
+               (seq 0 (length ns))
+  end.
+Definition gtimes (env : denv) (ns : list node) : list (path * (Z * Z)) := gtimes_op env (OComp 1 ns) [] None.
+Fixpoint gend (g : list (path * (Z * Z))) (p : path) : Z :=
+  match g with [] => 0 | (a, se) :: t => if path_eqb a p then snd se else gend t p end.
+(* MultiRelationLink.reference_node over paths: first of the latest-ending *)
+Fixpoint gmulti_ref_from (g : list (path * (Z * Z))) (ps : list path) (best : path) : path :=
+  match ps with
+  | [] => best
+  | p :: t => if gend g p >? gend g best then gmulti_ref_from g t p else gmulti_ref_from g t best
+  end.
+
+(* Re-insertion of the decomposed listing into an empty graph.  A link whose referent is a vanished sub-circuit (or is not yet
+   present) takes add_to_graph's fallback branch; so does a multi-link whose latest-ending member is a sub-circuit.  A multi-link
+   that stays attached to a leaf while another member of its group is a sub-circuit is outside the model (the implementation
+   then keeps consulting the stale nested graph: finding F10) -> None. *)
+Definition flatten (env : denv) (ns : list node) : option (list node) :=
+  let g := gtimes env ns in
+  option_map fst (fold_left (fun (st : option (list node * list (path * nat))) (e : path * leaf * glink) =>
+               match st with
+               | None => None
+               | Some (new, m) =>
+                   let '(P, l, gl) := e in
+                   let lk := match gl with
+                             | GNone => Some LNone
+                             | GDangling t => Some (LDangling t)
+                             | GRel t tg => match plookup m tg with Some q => Some (LRel t q) | None => Some (LDangling t) end
+                             | GMulti [] => Some LNone
+                             | GMulti (t0 :: ts) =>
+                                 match plookup m (gmulti_ref_from g ts t0) with
+                                 | None => Some (LDangling RelationType_FOLLOWED_BY)
+                                 | Some _ => match all_some (map (plookup m) (t0 :: ts)) with
+                                             | Some qs => Some (LMulti qs)
+                                             | None => None
+                                             end
+                                 end
+                             end in
+                   match lk with
+                   | None => None
+                   | Some k => Some (add_node env new (OLeaf l) k, (P, length new) :: m)
+                   end
+               end)
+            (glisting ns) (Some ([], []))).
